@@ -124,6 +124,8 @@ type abciDriver struct {
 	rejected int
 	passed   int
 	sigData  int
+	// afterBegin, when set, runs once on the open block's state right after BeginBlock
+	afterBegin func(c *Chain)
 }
 
 func newABCIDriver(t *rapid.T, g ABCIGenesis) *abciDriver {
@@ -288,6 +290,10 @@ func (d *abciDriver) genBlock(label string) BlockTrace {
 	dt := abciDts[rapid.IntRange(0, len(abciDts)-1).Draw(t, label+"_dt")]
 	tm := d.c.Time.Add(time.Duration(dt))
 	bt := d.c.Begin(tm)
+	if d.afterBegin != nil {
+		d.afterBegin(d.c)
+		d.afterBegin = nil
+	}
 	cb := ConcreteBlock{TimeNs: tm.UnixNano()}
 	// votes for proposals submitted in earlier blocks
 	for _, id := range d.propIDs {
